@@ -427,7 +427,7 @@ func build(r *rt.Run) (scs []scenario, exhaustive bool, extra map[string]any) {
 			long(c, 20)
 		}
 		extra["bounds"] = "2 parents x <=2 messages (times 1..3, duplicates, gaps, silent parent) x all interleavings for fill x tolerance; 3 parents x <=1; batch sampled"
-		return scs, true, extra
+		return scs, false, extra // join.on and batch inputs are sampled in this tier
 	}
 	for _, c := range joinCfgs("stream", 2) {
 		allFor(c, 3, 0)
